@@ -110,7 +110,7 @@ func (u *unitCtx) ctor(idx int, exts []int, typeParam string) {
 	for _, v := range pvars {
 		ft.Params = append(ft.Params, Param{v.typ, v.name})
 	}
-	w.S(u.sig.name + "(" + ptext + ") {")
+	w.S(u.sig.name + "(" + ptext + ")" + u.ctorThrows() + " {")
 	u.cur = &ft
 	u.scope = append([]varInfo(nil), pvars...)
 	u.block(1, true)
@@ -142,6 +142,12 @@ func (u *unitCtx) method(ms methodSig, exts []int, typeParam string) {
 		ft.Params = append(ft.Params, Param{v.typ, v.name})
 	}
 	if u.sig.kind == "Interface" {
+		if u.g.o.InterfaceBodies && u.ifaceBodyMethod(ms, ptext, pvars, &ft) {
+			return
+		}
+		if u.g.o.DeclForms && u.ifaceMethodMore(ms, ptext, pvars, &ft) {
+			return
+		}
 		if strings.Contains(ms.ret, "List") {
 			u.used["List"] = true
 		}
@@ -245,6 +251,7 @@ func (u *unitCtx) blockWithReturn(level int, ret string) {
 	t := u.g.t
 	w := u.w
 	if level == 1 {
+		u.curRet = ret
 		u.budget = 3
 		if u.g.o.Bodies {
 			u.budget = rapid.IntRange(0, 15).Draw(t, "bodyBudget")
@@ -274,7 +281,11 @@ func (u *unitCtx) blockWithReturn(level int, ret string) {
 		w.S("\n")
 	}
 	if level == 1 && ret != "" && ret != "void" {
-		w.S(u.ind(level) + "return " + u.valueOf(ret) + ";\n")
+		if !u.returnCall(level) {
+			w.S(u.ind(level) + "return " + u.valueOf(ret) + ";\n")
+		}
+	} else if level > 1 && u.g.o.ReturnCalls {
+		u.earlyReturn(level)
 	}
 	u.scope = u.scope[:saved]
 }
@@ -324,6 +335,9 @@ func (u *unitCtx) stmt(level int) {
 	k := rapid.IntRange(0, 13).Draw(t, "stmtKind")
 	if level >= 3 && k >= 8 {
 		k = k % 8
+	}
+	if u.g.o.ScopeEnds && level < 3 && rapid.IntRange(0, 9).Draw(t, "scopeEndStmt") == 9 && u.scopeEndStmt(level) {
+		return
 	}
 	if u.g.o.Wide && level < 3 && rapid.IntRange(0, 5).Draw(t, "wideStmt") == 0 {
 		u.wideStmt(level)
@@ -481,6 +495,10 @@ func (u *unitCtx) compound(level int, k int) {
 		w.S(")")
 		u.bodyOf(level)
 	case 11: // switch
+		if u.g.o.ScopeEnds {
+			// what the groups declare ends with the switch
+			defer func(saved int) { u.scope = u.scope[:saved] }(len(u.scope))
+		}
 		w.S("switch (" + fmt.Sprint(rapid.IntRange(0, 3).Draw(t, "switchOn")) + ") {\n")
 		w.S(u.ind(level) + "case 1:\n" + u.ind(level+1))
 		u.simpleStmt(level + 1)
@@ -616,7 +634,7 @@ func (u *unitCtx) wideStmt(level int) {
 		a := u.freshLocal()
 		w.S(u.g.sigs[ci].name + " " + a + "; " + a + " = ")
 		u.pending = a
-		u.newExpr(level, 1, ci)
+		u.newExpr(level, 1, u.initClassFor(ci))
 		u.pending = ""
 		w.S(";")
 		u.scope = append(u.scope, varInfo{name: a, kind: "local", typ: u.g.sigs[ci].name, cls: ci})
@@ -627,6 +645,9 @@ func (u *unitCtx) wideStmt(level int) {
 func (u *unitCtx) simpleStmt(level int) {
 	t := u.g.t
 	w := u.w
+	if u.g.o.AssignedCreations && rapid.IntRange(0, 7).Draw(t, "assignCreation") == 7 && u.assignCreation(level) {
+		return
+	}
 	switch rapid.IntRange(0, 9).Draw(t, "simpleKind") {
 	case 0, 1: // local declaration of a project type
 		c := u.collabFields()
@@ -640,7 +661,7 @@ func (u *unitCtx) simpleStmt(level int) {
 			w.S(fin + u.g.sigs[ci].name + " " + name + " = ")
 			u.pending = name // the declared name is in scope inside its own initializer: keep away from it
 			if rapid.Bool().Draw(t, "localInitNew") {
-				u.newExpr(level, 1, ci)
+				u.newExpr(level, 1, u.initClassFor(ci))
 			} else {
 				w.S("null")
 			}
@@ -812,7 +833,7 @@ func (u *unitCtx) args(level, depth int, lambdaOK bool) {
 	if depth >= 3 {
 		n = min(n, 1)
 	}
-	w.S("(")
+	w.S(u.openParen())
 	for k := 0; k < n; k++ {
 		if k > 0 {
 			w.S(rapid.SampledFrom([]string{", ", ",", ",\n" + u.ind(level+2)}).Draw(t, "argSep"))
@@ -823,6 +844,9 @@ func (u *unitCtx) args(level, depth int, lambdaOK bool) {
 			line, col := w.Line(), w.Col()
 			w.S("Runnable")
 			u.event(Event{Kind: "new", Name: "Runnable", Line: line, Col: col})
+			if u.g.o.AnonBodies && u.anonBody(level) {
+				continue
+			}
 			w.S("() { public void run() { ")
 			u.staticCall(level, 3)
 			w.S("; } }")
@@ -851,7 +875,7 @@ func (u *unitCtx) args(level, depth int, lambdaOK bool) {
 func (u *unitCtx) newExpr(level, depth int, cls int) {
 	t := u.g.t
 	w := u.w
-	w.S("new ")
+	w.S(u.newKeyword(level))
 	line, col := w.Line(), w.Col()
 	if cls >= 0 {
 		name := u.g.sigs[cls].name
@@ -859,6 +883,9 @@ func (u *unitCtx) newExpr(level, depth int, cls int) {
 		w.S(name)
 		u.event(Event{Kind: "new", Name: name, Line: line, Col: col})
 		u.args(level, depth, false)
+		return
+	}
+	if u.genericCreation() {
 		return
 	}
 	switch rapid.IntRange(0, 2).Draw(t, "newPlain") {
